@@ -17,6 +17,8 @@ use crate::sched::{FaultCfg, Sim, Violation, WireRec};
 use crate::spec::{self, pf, FReq, Gate, Inflight, Nego, Region, ReplyRule};
 
 pub const MAXQ: u64 = 4;
+/// request types (server::gen_valid_req numbering) that carry a queue index
+const INDEXED_TYPES: [u64; 7] = [6, 7, 8, 9, 10, 11, 16];
 
 /// API-acceptable, protocol-valid arguments for request type `typ`.
 pub fn gen_api_req(t: &mut Tape, typ: u64) -> FReq {
@@ -264,6 +266,9 @@ pub fn build_fe_items(all: Vec<(FReq, Script, Option<&'static str>)>, need_reply
                 }
             }
         };
+        // a queue count above the protocol's maximum: whether the API passes it on or refuses
+        // it is not the property's business, what it does to later index checks is (judge_fe)
+        let want_ok = if matches!(req, FReq::GetQueueNum) && script.val > 0x8000 { None } else { want_ok };
         if exp.stop {
             alive = false;
         }
@@ -298,6 +303,17 @@ pub fn gen_fe_session(t: &mut Tape, o: &FeGen) -> FeSession {
             }
         }
         body.push((gen_api_req(t, typ), None));
+    }
+    if o.local_reject_rate > 0 && t.chance(1, 8) {
+        // "beyond the known maximum" after the frontend was told a queue count: a usable one
+        // or one it has to refuse (scripted below)
+        body.push((FReq::GetQueueNum, None));
+        for _ in 0..t.range(1, 3) {
+            let typ = *t.pick(&INDEXED_TYPES);
+            if let Some((r, why)) = gen_local_reject(t, typ) {
+                body.push((r, Some(why)));
+            }
+        }
     }
     let mut need = 0u64;
     let mut need_vpf = false;
@@ -342,9 +358,16 @@ pub fn gen_fe_session(t: &mut Tape, o: &FeGen) -> FeSession {
             // below MAXQ, so that later calls keep their queue indexes acceptable
             // (a session that also makes a call with an out-of-range queue index keeps MAXQ: the
             // index the API must refuse is defined against the count it learnt)
+            // ... or gets a count beyond the protocol's maximum, which the frontend may refuse:
+            // a refused reply teaches it nothing, the known maximum stays what it was
             let pinned = body_has_index_reject;
-            s.val = match if pinned { 0 } else { t.draw(4) } {
-                0 => MAXQ,
+            s.val = match if pinned { 5 + t.draw(2) } else { t.draw(4) } {
+                0 | 5 => MAXQ,
+                6 => match t.draw(3) {
+                    0 => 0x8001,
+                    1 => u64::MAX,
+                    _ => t.lattice64().max(0x8001),
+                },
                 1 => 0x8000,
                 2 => 0x7fff,
                 _ => MAXQ + t.draw(0x8000 - MAXQ + 1),
@@ -545,6 +568,13 @@ pub fn judge_fe(j: &Judge, sess: &FeSession, res: &FeResult) -> Result<(), Viola
             }
             Some(r) => r,
         };
+        if let (FReq::GetQueueNum, Ok(FeOk::U64(x))) = (&it.req, r) {
+            if *x > 0x8000 {
+                // an API that passes such a count on has learnt it: the out-of-range indexes of
+                // this session are no longer out of range, nothing further is judged
+                return Ok(());
+            }
+        }
         match &it.exp {
             Expect::LocalReject(why) => {
                 if j.c02 || j.prop == "C07" {
